@@ -403,3 +403,8 @@ _add_family(globals(), _ps, 'parstruct', _ps.oracle, share=0.1)
 from harness import legacypar as _lp                    # noqa: E402
 from harness.mixins import add_family as _add_family    # noqa: E402,F811
 _add_family(globals(), _lp, 'legacypar', _lp.oracle, share=0.04)
+
+
+# an update due in the batch that removes the compartment of a parallel process; one description, two simulations
+from harness import duedelete as _dd                    # noqa: E402
+_add_family(globals(), _dd, 'duedelete', _dd.oracle, share=0.08)
